@@ -1073,6 +1073,203 @@ example : functorCalls [((fun x : List ℤ => (x.sum, x)), [[1, 2], [1, 2], [3]]
 
 end functor_theorems
 
+/-! ## status tables of the implementations, exceptions inside the wrapper, the generic objective -/
+
+/-- **what "converged" means per implementation**: the optimiser's own success indication — L-BFGS-B
+`warnflag = 0`, scipy / iminuit `success`, nlopt result codes 1..4 (never 5 = maxeval / 6 = maxtime
+reached), NR `warnflag ≤ 0`. -/
+theorem c11_impl_converged_iff (st : ImplStatus) :
+    implConverged st = true ↔
+      match st with
+      | .lbfgs wf _ => wf = 0
+      | .scipy ok => ok = true
+      | .iminuit ok => ok = true
+      | .crs code => 1 ≤ code ∧ code ≤ 4
+      | .nr wf => wf ≤ 0 := by
+  cases st with
+  | lbfgs wf t => simp [implConverged, lbfgsConverged]
+  | scipy ok => simp [implConverged]
+  | iminuit ok => simp [implConverged]
+  | crs code => simp only [implConverged, crsSuccess, Bool.and_eq_true, decide_eq_true_eq]; omega
+  | nr wf => simp [implConverged]
+
+theorem c11_crs_no_silent_timeout (code : Int) (h : code = 5 ∨ code = 6) : crsSuccess code = false := by
+  rcases h with rfl | rfl <;> decide
+
+/-- a converged L-BFGS-B / scipy / NR status is never "repeatable", and scipy / NR statuses never are -/
+theorem c11_converged_not_repeatable (st : ImplStatus) (h : implConverged st = true) :
+    (match st with
+      | .lbfgs _ _ => implRepeatable st = false
+      | .scipy _ => implRepeatable st = false
+      | .nr _ => implRepeatable st = false
+      | _ => True) := by
+  cases st with
+  | lbfgs wf t =>
+    have : wf = 0 := by simpa [implConverged, lbfgsConverged] using h
+    subst this
+    simp [implRepeatable, lbfgsRepeatable]
+  | scipy ok => rfl
+  | iminuit ok => trivial
+  | crs code => trivial
+  | nr wf => rfl
+
+/-- **the wrapper around the real implementations' status records**: a returned result belongs to a
+call whose status is "converged" in the sense of `c11_impl_converged_iff`; all earlier calls were not
+converged and repeatable. -/
+theorem c11_wrapper_status {F : Type} [LT F] [DecidableLT F] [BEq F]
+    (xs : Nat → List F) (fs : Nat → F) (sts : Nat → ImplStatus) (maxReps : Nat) (bounds : List (F × F))
+    (func : List F → F) (o : WrapOut F)
+    (h : wrapper (fun k => attemptOfStatus (xs k) (fs k) (sts k)) maxReps bounds func = .ok o) :
+    implConverged (sts o.reps) = true ∧ o.reps ≤ maxReps ∧
+    ∀ k < o.reps, implConverged (sts k) = false ∧ implRepeatable (sts k) = true := by
+  obtain ⟨h1, h2, h3⟩ := (c11_wrapper_raises _ maxReps bounds func).1 o h
+  exact ⟨h1, h2, fun k hk => h3 k hk⟩
+
+/-- scipy and NR statuses are never repeatable: `Minimizer(ScipyMinimizerImpl | NR…)` makes no repetition -/
+theorem c11_wrapper_no_repetition {F : Type} [LT F] [DecidableLT F] [BEq F]
+    (xs : Nat → List F) (fs : Nat → F) (sts : Nat → ImplStatus) (maxReps : Nat) (bounds : List (F × F))
+    (func : List F → F) (o : WrapOut F)
+    (hst : ∀ k, implRepeatable (sts k) = false)
+    (h : wrapper (fun k => attemptOfStatus (xs k) (fs k) (sts k)) maxReps bounds func = .ok o) :
+    o.reps = 0 := by
+  obtain ⟨_, _, h3⟩ := c11_wrapper_status xs fs sts maxReps bounds func o h
+  by_contra hne
+  have := (h3 0 (by omega)).2
+  rw [hst 0] at this
+  exact Bool.noConfusion this
+
+example : implRepeatable (.lbfgs 2 "ABNORMAL") = true ∧ implRepeatable (.lbfgs 2 "ABNORMAL_TERMINATION_IN_LNSRCH") = true ∧
+    implRepeatable (.lbfgs 2 "CONVERGENCE: REL_REDUCTION_OF_F_<=_FACTR*EPSMCH") = true ∧
+    implRepeatable (.lbfgs 1 "STOP: TOTAL NO. OF ITERATIONS REACHED LIMIT") = false := by decide
+
+/-- the bounds reach scipy for every method the code treats as bounded, and only for those -/
+theorem c11_scipy_bounds_mode :
+    scipyBoundsMode "L-BFGS-B" = .native ∧ scipyBoundsMode "TNC" = .native ∧ scipyBoundsMode "SLSQP" = .native ∧
+    scipyBoundsMode "COBYLA" = .constraints ∧
+    ∀ m, m ≠ "L-BFGS-B" → m ≠ "TNC" → m ≠ "SLSQP" → m ≠ "COBYLA" → scipyBoundsMode m = .dropped := by
+  refine ⟨by decide, by decide, by decide, by decide, ?_⟩
+  intro m h1 h2 h3 h4
+  simp [scipyBoundsMode, h1, h2, h3, h4]
+
+section wrapperE_theorems
+variable {F : Type} [LT F] [DecidableLT F] [BEq F]
+
+namespace C11
+omit [LT F] [DecidableLT F] [BEq F] in
+theorem wrapLoopE_refines (a : Nat → Attempt F) : ∀ (fuel reps : Nat) (cur : Attempt F),
+    wrapLoopE (fun k => Except.ok (a k)) fuel reps cur = .ok (wrapLoop a fuel reps cur) := by
+  intro fuel
+  induction fuel with
+  | zero => intro reps cur; rfl
+  | succ n ih =>
+    intro reps cur
+    simp only [wrapLoopE, wrapLoop]
+    split_ifs
+    · exact ih _ _
+    · rfl
+
+omit [LT F] [DecidableLT F] [BEq F] in
+/-- every call consumed by a successful loop returned normally -/
+theorem wrapLoopE_ok (attempt : Nat → Except String (Attempt F)) : ∀ (fuel reps : Nat) (cur : Attempt F) r,
+    wrapLoopE attempt fuel reps cur = .ok r →
+    reps ≤ r.2 ∧ (∀ k, reps < k → k ≤ r.2 → ∃ a, attempt k = .ok a) ∧
+    (reps < r.2 → attempt r.2 = .ok r.1) ∧ (reps = r.2 → r.1 = cur) := by
+  intro fuel
+  induction fuel with
+  | zero =>
+    intro reps cur r h
+    simp only [wrapLoopE, Except.ok.injEq] at h
+    subst h
+    exact ⟨le_refl _, fun k h1 h2 => by omega, fun h => by simp at h, fun _ => rfl⟩
+  | succ n ih =>
+    intro reps cur r h
+    simp only [wrapLoopE] at h
+    split_ifs at h with hc
+    · cases ha : attempt (reps + 1) with
+      | error e => rw [ha] at h; cases h
+      | ok a =>
+        rw [ha] at h
+        obtain ⟨h1, h2, h3, h4⟩ := ih _ _ _ h
+        refine ⟨by omega, ?_, ?_, fun hh => by omega⟩
+        · intro k hk1 hk2
+          by_cases hk : k = reps + 1
+          · subst hk; exact ⟨a, ha⟩
+          · exact h2 k (by omega) hk2
+        · intro _
+          by_cases hk : reps + 1 = r.2
+          · rw [← hk, ha, h4 hk]
+          · exact h3 (by omega)
+    · simp only [Except.ok.injEq] at h
+      subst h
+      exact ⟨le_refl _, fun k h1 h2 => by omega, fun h => by simp at h, fun _ => rfl⟩
+end C11
+
+/-- **refinement**: when neither the implementation nor the objective raises, the exception-aware
+wrapper is the wrapper of the other theorems. -/
+theorem c11_wrapperE_refines (a : Nat → Attempt F) (maxReps : Nat) (bounds : List (F × F)) (g : List F → F) :
+    wrapperE (fun k => Except.ok (a k)) maxReps bounds (fun x => Except.ok (g x)) = wrapper a maxReps bounds g := by
+  unfold wrapperE wrapper
+  simp only [C11.wrapLoopE_refines]
+
+/-- **exceptions are never swallowed**: a result is returned only if every call of the implementation made
+up to the reported repetition returned normally (and so did the re-evaluation of the objective); an
+exception of the first call leaves the wrapper as it is. -/
+theorem c11_wrapperE_propagates (attempt : Nat → Except String (Attempt F)) (maxReps : Nat)
+    (bounds : List (F × F)) (func : List F → Except String F) :
+    (∀ e, attempt 0 = .error e → wrapperE attempt maxReps bounds func = .error e) ∧
+    (∀ o, wrapperE attempt maxReps bounds func = .ok o →
+      (∀ k ≤ o.reps, ∃ a, attempt k = .ok a) ∧ (o.reevaluated = true → func o.x = .ok o.f)) := by
+  constructor
+  · intro e he
+    unfold wrapperE
+    rw [he]
+  · intro o ho
+    unfold wrapperE at ho
+    cases h0 : attempt 0 with
+    | error e => rw [h0] at ho; cases ho
+    | ok a0 =>
+      rw [h0] at ho
+      simp only at ho
+      cases hl : wrapLoopE attempt maxReps 0 a0 with
+      | error e => rw [hl] at ho; cases ho
+      | ok r =>
+        rw [hl] at ho
+        simp only at ho
+        obtain ⟨_, hall, _, _⟩ := C11.wrapLoopE_ok attempt maxReps 0 a0 r hl
+        have hk : ∀ k ≤ r.2, ∃ a, attempt k = .ok a := by
+          intro k hk
+          by_cases hz : k = 0
+          · subst hz; exact ⟨a0, h0⟩
+          · exact hall k (by omega) hk
+        split_ifs at ho with hc hn ha
+        · cases hf : func (clipAll r.1.x bounds) with
+          | error e => rw [hf] at ho; cases ho
+          | ok v =>
+            rw [hf] at ho
+            simp only [Except.ok.injEq] at ho
+            subst ho
+            exact ⟨hk, fun _ => hf⟩
+        · simp only [Except.ok.injEq] at ho
+          subst ho
+          exact ⟨hk, fun hh => by simp at hh⟩
+
+end wrapperE_theorems
+
+/-- **the generic objective of `LLHRatio.maximize`**: value and every gradient component negated; minimising
+it is maximising the log-likelihood ratio; negating twice gives the function back. -/
+theorem c11_negfunc {K : Type} [AddCommGroup K] [LinearOrder K] [IsOrderedAddMonoid K]
+    (evaluate : List K → K × List K) (x y : List K) :
+    (negFunc evaluate x).1 = -(evaluate x).1 ∧ (negFunc evaluate x).2.length = (evaluate x).2.length ∧
+    (∀ i (h : i < (evaluate x).2.length), (negFunc evaluate x).2[i]? = some (-(evaluate x).2[i])) ∧
+    ((negFunc evaluate x).1 ≤ (negFunc evaluate y).1 ↔ (evaluate y).1 ≤ (evaluate x).1) ∧
+    negFunc (negFunc evaluate) x = evaluate x := by
+  refine ⟨rfl, by simp [negFunc], ?_, by simp [negFunc], ?_⟩
+  · intro i h
+    simp [negFunc, h]
+  · simp only [negFunc, neg_neg, List.map_map]
+    have : (fun g : K => -g) ∘ (fun g : K => -g) = id := by funext g; simp
+    rw [this, List.map_id]
+
 /-! ## COBYLA: bounds as inequality constraints -/
 
 section cobyla
